@@ -626,10 +626,13 @@ db_expr_formatters = {
     "if_else": _db_if_else_expr,
     "where": _db_where_expr,
     "is_in": _db_is_in_expr,
-    "maximum": _db_maximum_expr,
-    "fmax": _db_fmax_expr,
-    "minimum": _db_minimum_expr,
-    "fmin": _db_fmin_expr,
+    # maximum/minimum propagate missing values, fmax/fmin ignore them (numpy semantics, see Term docstrings):
+    # the formatter with the IS NULL branches returns the non-missing argument (fmax/fmin),
+    # the plain comparison form yields NULL when either argument is NULL (maximum/minimum)
+    "maximum": _db_fmax_expr,
+    "fmax": _db_maximum_expr,
+    "minimum": _db_fmin_expr,
+    "fmin": _db_minimum_expr,
     "count": _db_count_expr,
     "concat": _db_concat_expr,
     "coalesce": _db_coalesce_expr,
